@@ -1048,8 +1048,12 @@ func e2eRandom(wr *gal.Writer, w *e2eWorld, r *gal.Rand, n int, cli int) {
 			}
 			if len(c.Paths) > 0 && r.Chance(1, 5) {
 				// (never replace the content of the account files: the passwd/group half reads them)
-				if p := c.Paths[r.Intn(len(c.Paths))].Path; !strings.HasPrefix(p, "/etc/") || m.Type == "permissions" {
-					m.Path = p
+				// and never let a hardlink / empty-file / symlink land on a directory declared or touched earlier:
+				// a hardlink there REMOVES the directory (e.g. /etc, which later pipeline steps need)
+				prev := c.Paths[r.Intn(len(c.Paths))]
+				creates := func(t string) bool { return t == "hardlink" || t == "empty-file" || t == "symlink" }
+				if m.Type == "permissions" || (m.Type == "directory" && !strings.HasPrefix(prev.Path, "/etc/")) || (creates(m.Type) && creates(prev.Type) && !strings.HasPrefix(prev.Path, "/etc")) {
+					m.Path = prev.Path
 				}
 			}
 			c.Paths = append(c.Paths, m)
